@@ -264,6 +264,11 @@ structure Cfg (R : Type) where
   anchor : Option Nat
   cropH : Nat
   cropW : Nat
+  /-- the constructor argument `apply_aug` — the only thing that switches augmentation on -/
+  applyAug : Bool := false
+  /-- `data_config.use_augmentations_train`: read by the *trainer* to choose `apply_aug` for the
+  training dataset; the dataset classes never look at it (no definition below mentions it) -/
+  cfgAugFlag : Bool := false
 
 /-- `BaseDataset.__init__`: a `max_height` / `max_width` set in the config takes precedence over
 the corresponding component of the `max_hw` argument -/
@@ -324,6 +329,11 @@ def Cfg.steps (cfg : Cfg R) (cast : Nat → R) : List (Step R) :=
   match cfg.kind with
   | .centered => centeredSteps cast cfg.cropH cfg.cropW
   | _ => []
+
+/-- all rebinding steps of `__getitem__`: the augmentation steps (`aug`, whatever they compute)
+come first and only when the constructor said `apply_aug=True`, then the class's own steps -/
+def Cfg.stepsAug (cfg : Cfg R) (cast : Nat → R) (aug : List (Step R)) : List (Step R) :=
+  (if cfg.applyAug then aug else []) ++ cfg.steps cast
 
 /-- the frame's `eff_scale` under this configuration -/
 def Cfg.eff (cfg : Cfg R) (cast : Nat → R) (f : Frame R) : R :=
